@@ -170,6 +170,19 @@ func minimizeUntil(p *Plan, test func(*Plan) bool, budget int, deadline time.Tim
 	p = p.clone()
 	for round := 0; round < 6; round++ {
 		changed := false
+		// 0. one shared value instead of several (indexes are taken modulo
+		// the length of the list)
+		for k := 0; k < len(p.Shared) && len(p.Shared) > 1; k++ {
+			if m.exhausted() {
+				break
+			}
+			q := p.clone()
+			q.Shared = []Val{q.Shared[k]}
+			if m.try(q) {
+				p, changed = q, true
+				break
+			}
+		}
 		// 1. drop whole tasks
 		for ti := 0; ti < len(p.Tasks) && len(p.Tasks) > 1; ti++ {
 			if m.exhausted() {
